@@ -344,7 +344,7 @@ CHECKS = {
         "lean_modules": ["P3R.Props.C02", "P3R.Props.C02Run", "P3R.Props.C02Denote", "P3R.Props.C02Complete", "P3R.Props.C02Shape", "P3R.Lemmas.BuilderSound",
                          "P3R.Props.C02LowerTotal", "P3R.Props.C02BuilderOk", "P3R.Witness.C02LowerTotal",
                          "P3R.Props.C02ShapeMono", "P3R.Props.C02ShapeLower", "P3R.Props.C02ShapeTotal",
-                         "P3R.Witness.C02ShapeTotal"],
+                         "P3R.Witness.C02ShapeTotal", "P3R.Props.C02ShapeOpt", "P3R.Props.C02ShapeOptLower", "P3R.Witness.C02ShapeOpt"],
         "theorems": ["P3R.C02.dedup_rewrite_terminates", "P3R.C02.setW_get", "P3R.C02.setW_mono",
                      "P3R.C02.execAlu_sound",
                      # whole-run soundness: run = ok => every Const/ALU relation holds on the returned witness
@@ -392,7 +392,23 @@ CHECKS = {
                      "P3R.Witness.C02ShapeTotal.good_guards", "P3R.Witness.C02ShapeTotal.good_optKeeps",
                      "P3R.Witness.C02ShapeTotal.good_compiles", "P3R.Witness.C02ShapeTotal.bad_runs",
                      "P3R.Witness.C02ShapeTotal.tbl_needs_primOk", "P3R.Witness.C02ShapeTotal.own_reachable",
-                     "P3R.Witness.C02ShapeTotal.own_needs_primOk"],
+                     "P3R.Witness.C02ShapeTotal.own_needs_primOk",
+                     # second clause, optimiser side: `dedup` and `fuse` keep the shape run (list level, every op list), hence
+                     # optKeepsShape for every lowering; the compiled circuit of every builder state with Ok / privOk / pubOk /
+                     # primOk / pubFull runs on every satisfying input: NO per-circuit hypothesis (pubsFirst, the syntactic fact
+                     # the fusion argument needs, is proved for the lowering: lower_pubsFirst)
+                     "P3R.C02O.exec_alu_cases", "P3R.C02O.run_written", "P3R.C02O.resolve_lt", "P3R.C02O.step_DS",
+                     "P3R.C02O.dedup_keeps_shape", "P3R.C02O.postpass_ok", "P3R.C02O.surgery_keeps_run",
+                     "P3R.C02O.RSim.step", "P3R.C02O.rsim_scanTo", "P3R.C02O.no_early_def", "P3R.C02O.ge_step",
+                     "P3R.C02O.ge_scan", "P3R.C02O.cands_mul_inj", "P3R.C02O.chosenOf_sup", "P3R.C02O.chosen_run_facts",
+                     "P3R.C02O.fuse_keeps_shape", "P3R.C02O.dedup_PreOk", "P3R.C02O.dedup_dshape", "P3R.C02O.lower_io",
+                     "P3R.C02O.optKeeps_of_struct", "P3R.C02O.optKeepsShape_total", "P3R.C02O.compile_shape_ok_of_pubsFirst",
+                     "P3R.C02.run_total_on_satisfying_inputs_of_pubsFirst",
+                     "P3R.C02O.emitNode_append", "P3R.C02O.fPub_PA", "P3R.C02O.lower_pubsFirst",
+                     "P3R.C02O.optKeepsShape_of_guards", "P3R.C02O.compile_shape_ok", "P3R.C02.run_total_on_satisfying_inputs",
+                     "P3R.Witness.C02ShapeOpt.good_pubsFirst", "P3R.Witness.C02ShapeOpt.good_pubFull",
+                     "P3R.Witness.C02ShapeOpt.good_fuses",
+                     "P3R.Witness.C02ShapeOpt.pubsFirst_needed"],
         "run": lambda ctx: compile_run(ctx, "C02"),
         "trusted_base": ["executable prime-field instances PF p of the driver (validated against p3-field by the runs)"],
         "assumptions": ["zero divisors: no guarantee is checked when some divisor evaluates to 0 (as the property states)"],
